@@ -1,0 +1,31 @@
+//go:build verif
+
+// Contracts for the deductive verifier in /verif (govc). Comment-only.
+
+package concurrent
+
+//@ # the two function values of a task are set by NewTask and never written again
+//@ stable Task.handle Task.panicHandle workerPool.statistics workerPool.logger
+
+//@ # calls(f) / lastnonnil(f): ghost trace of invocations of the function value f
+//@ func workerPool.execTask
+//@   prop C19
+//@   requires task != nil && task.handle != nil && task.handle != task.panicHandle && p.statistics != nil && p.logger != nil
+//@   modifies *
+//@   ensures[no_panic_no_handler] task.panicHandle != nil ==> calls(task.panicHandle) == old(calls(task.panicHandle))
+//@   ensures[task_ran_once] calls(task.handle) == old(calls(task.handle)) + 1
+//@   ensures_recovered[panic_routed_once_with_error] task.panicHandle != nil ==> (calls(task.panicHandle) == old(calls(task.panicHandle)) + 1 && lastnonnil(task.panicHandle))
+//@   ensures_recovered[task_ran_once] calls(task.handle) == old(calls(task.handle)) + 1
+//@ end
+//@ func NewTask
+//@   prop C19
+//@   ensures result != nil && result.handle == handle && result.panicHandle == panicHandle
+//@ end
+
+//@ # what was handed to the pool last (ghost), so that callers can be held to what they submit
+//@ ghost field Pool.lastTask *Task
+//@ func Pool.Submit
+//@   requires task != nil
+//@   modifies self.lastTask
+//@   ensures self.lastTask == task
+//@ end
